@@ -32,6 +32,7 @@ type TableState struct {
 	CommitID int             // id of the transaction that produced this version (-1 initial)
 	Idx      int             // position in the table's chain
 	Deletes  []MDel          // deletions contained in the producing commit
+	Returned bool            // the producing Commit has returned
 }
 
 func (s *TableState) clone() *TableState {
